@@ -547,6 +547,7 @@ func (p *pathCtx) tryLock(addr *value) bool {
 	}
 	m.locked = true
 	m.owner = p.cur
+	p.raceAcquire(m)
 	return true
 }
 
